@@ -164,9 +164,16 @@ DIFF_BYTES = [0, 10, 13, 32, 35, 46, 43, 45, 64, 255, 254, 97, 0x25, 0x15]
 
 def gen_diff_bytes(rng, enc):
     if enc and rng.chance(0.7):
-        return gen_text(rng, enc, 8).encode(enc)
+        body = gen_text(rng, enc, 8).encode(enc)
+    else:
+        body = bytes(rng.choice(DIFF_BYTES)
+                     for _ in range(rng.randint(1, 12)))
 
-    return bytes(rng.choice(DIFF_BYTES) for _ in range(rng.randint(1, 12)))
+    if rng.chance(0.15):
+        # context lines: lines that start with spaces
+        body = ' context\n  more context\n'.encode(enc or 'ascii') + body
+
+    return body
 
 
 def pick_enc(rng, p_none=0.6, pool=None):
@@ -493,6 +500,11 @@ def gen_foreign(rng, pool=None, shuffle=True, blanks=True, crlf=None,
             if rng.chance(0.3):
                 opts.append(('type', rng.choice(['text', 'binary'])))
 
+            if rng.chance(0.2):
+                # context lines (lines that start with spaces) first
+                raw = (' context' + ('\r\n' if kind == 'dos' else '\n') +
+                       '  two').encode(eff or 'ascii') + nl + raw
+
         if not raw.endswith(nl):
             raw += nl
 
@@ -532,7 +544,13 @@ def gen_foreign(rng, pool=None, shuffle=True, blanks=True, crlf=None,
                 opts.append(('indent', ind))
 
                 if ind:
-                    raw = b''.join(b' ' * ind + l
+                    # (some producers leave empty lines unindented)
+                    bare = rng.chance(0.3)
+
+                    if rng.chance(0.25) and not raw.endswith(nl + nl):
+                        raw += nl       # a final empty line
+
+                    raw = b''.join(l if bare and l == nl else b' ' * ind + l
                                    for l in R.split_keep(raw, nl))
 
         opts.append(('length', '@'))
